@@ -2084,6 +2084,10 @@ class Fn:
         if name == "ok_or_else" and t and t[0] == "option" and len(args) == 1 and args[0][0] == "closure" and not args[0][1]:
             ev, et = self.ex(args[0][3], env)
             return ("(Src.ok_or_else %s %s)" % (s, ev), ("result", t[1], et))
+        if name == "ok_or" and t and t[0] == "option" and len(args) == 1 and args[0][0] != "closure":
+            # the error value is a pure expression here (evaluated eagerly in Rust: unobservable)
+            ev, et = self.ex(args[0], env)
+            return ("(Src.ok_or_else %s %s)" % (s, ev), ("result", t[1], et))
         if name in ("first", "next") and t and t[0] == "slice":
             # (`next` on an iterator expression that is not kept: its first element)
             return ("(List.head? %s)" % s, ("option", t[1] if (t and t[0] == "slice") else None))
